@@ -7,7 +7,7 @@ set -u
 PATCH="$(readlink -f "$1")"; PROP="$2"; TIER="${3:-quick}"
 export GOFLAGS=-mod=mod GOPROXY=off GOSUMDB=off GOTOOLCHAIN=local
 D=$(mktemp -d /tmp/mut-XXXXXX)
-trap 'rm -rf "$D"' EXIT
+trap 'rm -rf "$D" "/verif/.alt/$(echo "$D/gtfs" | md5sum | cut -c1-10)"' EXIT
 cp -r /repo "$D/gtfs"
 cd "$D/gtfs" || exit 2
 if ! git apply "$PATCH" 2> "$D/apply.err"; then echo "RESULT $(basename $PATCH) $PROP: PATCH-DOES-NOT-APPLY $(head -c 200 $D/apply.err)"; exit 2; fi
